@@ -261,7 +261,7 @@ def run(ctx):
         ctx.mc("mc/MC_Eval", "mc/MC_Eval_4.cfg", label="MC 4 roots", timeout=3000, heap="24g")
     # ---------------- (G)
     vectors = []
-    gens = ["gen/Gen_Eval_2.cfg", "gen/Gen_Eval_3.cfg"] + ([] if quick else ["gen/Gen_Eval_late.cfg", "gen/Gen_Eval_4.cfg"])
+    gens = ["gen/Gen_Eval_2.cfg", "gen/Gen_Eval_3.cfg", "gen/Gen_Eval_late.cfg"] + ([] if quick else ["gen/Gen_Eval_4.cfg"])
     for g in gens:
         vectors += ctx.gen("mc/MC_Eval", g, label=os.path.basename(g)[:-4], timeout=3000, heap=None if quick else "24g").vectors
     seen, uniq = {}, []
